@@ -18,7 +18,7 @@ for p in props:
     checks.append({
         "property_id": pid,
         "quick_cmd": f"./run {pid} quick",
-        "thorough_cmd": f"./run {pid} thorough",
+        **({"thorough_cmd": f"./run {pid} thorough"} if m.get("thorough_verified") else {}),
         "evidence_file": f"/verif/evidence/{pid}.json",
         "replay_cmd_template": f"./run {pid} --replay {{path}}",
         "engine": "vlib",
